@@ -7,6 +7,8 @@ import (
 	"errors"
 	"fmt"
 	"os"
+	"sort"
+	"strings"
 	"sync"
 	"sync/atomic"
 	"time"
@@ -54,11 +56,18 @@ type pRun struct {
 	peakUn     int64
 	accN       atomic.Int64
 	ansN       atomic.Int64
+	accAt      map[int]time.Duration // when the call of an accepted op returned
+	ansAt      map[int]time.Duration // when its first value arrived
+	opts       pRunOpts
 
 	quit      chan struct{}
 	wg        sync.WaitGroup // producers and receivers
 	hung      atomic.Int64
 	pauseStop chan struct{} // when non-nil, Stop pauses before its final select until closed
+	lateGate  chan struct{} // when non-nil, "ldrain" receivers start counting their delay when it is closed
+	lateBy    time.Duration // delay of "ldrain" receivers (default 25 ms)
+	noSnap    bool          // no visibility query at nil acks (runs that measure latencies / counts)
+	flushWait time.Duration // how long flush() waits for Flush to return (default 30 s)
 }
 
 func pinnedModel() bool { return os.Getenv("VERIF_P_PINNED") == "1" }
@@ -67,12 +76,13 @@ type pRunOpts struct {
 	ICap, MaxRows, MaxBytes, PartRows, PartBytes int
 	MaxTime                                      time.Duration
 	HasAbort, HonorCtx, Partitioned              bool
+	Compression                                  string // "", "none", "snappy", "zstd" (limits are defined on uncompressed sizes)
 }
 
 func newPRun(c *Ctx, name string, o pRunOpts) *pRun {
 	r := &pRun{c: c, name: name, t0: time.Now(), ops: map[int]*pOpInfo{}, cur: map[int64]int{}, vid2op: map[int64]int{},
 		sent: map[int]bool{}, chans: map[int]chan error{}, recvd: map[int][]bool{}, retAcc: map[int]bool{}, retSeq: map[int]int{},
-		callSeq: map[int]int{}, visAny: map[int]bool{}, visBad: map[int]bool{}, snapAt: map[int]map[int]bool{}, quit: make(chan struct{})}
+		callSeq: map[int]int{}, accAt: map[int]time.Duration{}, ansAt: map[int]time.Duration{}, opts: o, visAny: map[int]bool{}, visBad: map[int]bool{}, snapAt: map[int]map[int]bool{}, quit: make(chan struct{})}
 	fixed := !pinnedModel()
 	r.spec = pCfgSpec{ICap: o.ICap, FCap: 1, MaxRows: o.MaxRows, MaxBytes: o.MaxBytes, PartRows: o.PartRows, PartBytes: o.PartBytes,
 		Timeless: o.MaxTime >= time.Hour, HasAbort: o.HasAbort, FixD5: fixed, FixD6: fixed, FixD9: fixed}
@@ -86,7 +96,14 @@ func newPRun(c *Ctx, name string, o pRunOpts) *pRun {
 	cfg.MaxRowGroupRows = o.PartRows
 	cfg.MaxRowGroupBytes = o.PartBytes
 	cfg.MaxBufferedTime = o.MaxTime
-	cfg.RowDataCompression = bs.CompressionNone
+	switch o.Compression {
+	case "snappy":
+		cfg.RowDataCompression = bs.CompressionSnappy
+	case "zstd":
+		cfg.RowDataCompression = bs.CompressionZstd
+	default:
+		cfg.RowDataCompression = bs.CompressionNone
+	}
 	if o.Partitioned {
 		cfg.PartitionFunc = func(row map[string]any) string {
 			p, _ := row["p"].(string)
@@ -246,6 +263,16 @@ func (r *pRun) noteSeq() int {
 
 // ingest calls IngestRows from the current goroutine. build receives the op id.
 func (r *pRun) ingest(ctx context.Context, chMode string, build func(id int) *pBatch) (int, error) {
+	// "ldrain": an unbuffered channel whose caller starts receiving only after a while (the usual
+	// `IngestRows(...); ...; <-done` pattern) and then keeps receiving: for the model a drained channel
+	lateBy := time.Duration(0)
+	if chMode == "ldrain" {
+		chMode = "drain"
+		lateBy = r.lateBy
+		if lateBy <= 0 {
+			lateBy = 25 * time.Millisecond
+		}
+	}
 	info := &pOpInfo{Kind: "batch", Ch: chMode}
 	id := r.newOp(info)
 	b := build(id)
@@ -271,13 +298,29 @@ func (r *pRun) ingest(ctx context.Context, chMode string, build func(id int) *pB
 	r.retSeq[id] = r.noteSeq()
 	r.mu.Unlock()
 	if err == nil {
-		r.noteAccepted()
+		r.noteAccepted(id)
 	}
 	r.logEv("h.ret", "", int64(id), pB2i(err == nil))
 	if err == nil && chMode == "drain" {
 		r.wg.Add(1)
+		gate := r.lateGate
 		go func() {
 			defer r.wg.Done()
+			if lateBy > 0 {
+				// not receiving yet: wait for the gate (when the scenario has one), then for lateBy
+				if gate != nil {
+					select {
+					case <-gate:
+					case <-r.quit:
+						return
+					}
+				}
+				select {
+				case <-time.After(lateBy):
+				case <-r.quit:
+					return
+				}
+			}
 			select {
 			case v := <-ch:
 				r.gotAck(id, v == nil)
@@ -288,7 +331,12 @@ func (r *pRun) ingest(ctx context.Context, chMode string, build func(id int) *pB
 	return id, err
 }
 
-func (r *pRun) noteAccepted() { r.accN.Add(1) }
+func (r *pRun) noteAccepted(id int) {
+	r.accN.Add(1)
+	r.mu.Lock()
+	r.accAt[id] = time.Since(r.t0)
+	r.mu.Unlock()
+}
 
 // gotAck records a value received on op's done channel; for a nil ack of a sample of ops it
 // immediately asks a query which batches are visible (C07's "already visible").
@@ -297,7 +345,10 @@ func (r *pRun) gotAck(id int, ok bool) {
 	r.logEv("h.recv", "", int64(id), pB2i(ok))
 	r.mu.Lock()
 	r.recvd[id] = append(r.recvd[id], ok)
-	snap := ok && len(r.snapAt) < 6
+	if _, seen := r.ansAt[id]; !seen {
+		r.ansAt[id] = time.Since(r.t0)
+	}
+	snap := ok && len(r.snapAt) < 6 && !r.noSnap
 	r.mu.Unlock()
 	if snap {
 		full, _ := r.queryVisible(r.eng)
@@ -307,29 +358,48 @@ func (r *pRun) gotAck(id int, ok bool) {
 	}
 }
 
-// flush calls Flush from the current goroutine; its result is the ack of the force request.
+// flush calls Flush and waits for it; its result is the ack of the force request. The call runs on
+// its own goroutine so that a Flush that is never answered does not take the harness with it: after
+// flushWait the op is left as "accepted, call did not return" (finish() closes it in the log).
 func (r *pRun) flush(ctx context.Context) (int, error) {
 	info := &pOpInfo{Kind: "force", Ch: "buf"}
 	id := r.newOp(info)
-	gid := curGoroutineID()
 	r.mu.Lock()
-	r.cur[gid] = id
 	r.callSeq[id] = r.noteSeq()
 	r.mu.Unlock()
 	r.logEv("h.call", "", int64(id), 0)
-	err := r.eng.Flush(ctx)
-	r.mu.Lock()
-	delete(r.cur, gid)
-	acc := r.sent[id]
-	r.retAcc[id] = acc
-	r.retSeq[id] = r.noteSeq()
-	r.mu.Unlock()
-	if acc {
-		r.noteAccepted()
-		r.gotAck(id, err == nil)
+	done := make(chan error, 1)
+	go func() {
+		gid := curGoroutineID()
+		r.mu.Lock()
+		r.cur[gid] = id
+		r.mu.Unlock()
+		err := r.eng.Flush(ctx)
+		r.mu.Lock()
+		delete(r.cur, gid)
+		acc := r.sent[id]
+		r.retAcc[id] = acc
+		r.retSeq[id] = r.noteSeq()
+		r.mu.Unlock()
+		if acc {
+			r.noteAccepted(id)
+			r.gotAck(id, err == nil)
+		}
+		r.logEv("h.ret", "", int64(id), pB2i(acc))
+		done <- err
+	}()
+	wait := r.flushWait
+	if wait <= 0 {
+		wait = 30 * time.Second
 	}
-	r.logEv("h.ret", "", int64(id), pB2i(acc))
-	return id, err
+	select {
+	case err := <-done:
+		return id, err
+	case <-time.After(wait):
+		return id, errPHung
+	case <-r.quit:
+		return id, errPHung
+	}
 }
 
 func (r *pRun) start() { r.eng.Start() }
@@ -440,19 +510,8 @@ func (r *pRun) waitQuiet(max, quiet time.Duration) (hung bool) {
 	return r.hung.Load() != 0
 }
 
-type pResult struct {
-	items                            []pItem
-	problems                         []string
-	onceSame, onceFresh, anyVis, bad []int
-	exact                            bool
-	hung                             bool
-	discard                          bool // the engine was still producing events at the cut
-}
-
-// finish ends the case log, collects buffered acks, queries, then tears the engine down.
-func (r *pRun) finish(maxWait time.Duration, exact bool) *pResult {
-	hung := r.waitQuiet(maxWait, 25*time.Millisecond)
-	// buffered done channels: read what arrived
+// pollBuffered reads (without blocking) the values that have arrived on buffered done channels.
+func (r *pRun) pollBuffered() {
 	r.mu.Lock()
 	type pend struct {
 		id int
@@ -465,6 +524,7 @@ func (r *pRun) finish(maxWait time.Duration, exact bool) *pResult {
 		}
 	}
 	r.mu.Unlock()
+	sort.Slice(bufs, func(i, j int) bool { return bufs[i].id < bufs[j].id })
 	for _, p := range bufs {
 		for {
 			select {
@@ -476,6 +536,70 @@ func (r *pRun) finish(maxWait time.Duration, exact bool) *pResult {
 			break
 		}
 	}
+}
+
+type pResult struct {
+	items                            []pItem
+	problems                         []string
+	onceSame, onceFresh, anyVis, bad []int
+	exact                            bool
+	hung                             bool
+	discard                          bool // the engine was still producing events at the cut
+	logPeak                          int  // peak over the log of (requests sent into ingestChan) - (delivery attempts)
+}
+
+// bound is the C09 bound of the run's configuration: icap + 1 + (fcap+2)*MaxBufferedRows.
+func (r *pRun) bound() int64 {
+	return int64(r.spec.ICap + 1 + (r.spec.FCap+2)*r.spec.MaxRows)
+}
+
+// sampleUn records accepted-minus-answered as seen from outside the engine. Call it when the
+// callers and receivers are quiet (a receiver that got its value but has not counted it yet would
+// inflate the number).
+func (r *pRun) sampleUn() int64 {
+	u := r.accN.Load() - r.ansN.Load()
+	if u > r.bound() {
+		// over the bound: make sure it is not a receiver that lags behind; under a stall the number can
+		// only come down to its true value
+		for i := 0; i < 5; i++ {
+			time.Sleep(60 * time.Millisecond)
+			r.pollBuffered()
+			if v := r.accN.Load() - r.ansN.Load(); v < u {
+				u = v
+			}
+		}
+	}
+	r.mu.Lock()
+	if u > r.peakUn {
+		r.peakUn = u
+	}
+	r.mu.Unlock()
+	return u
+}
+
+// pLogPeak counts on the translated log: +1 for every request that entered ingestChan, -1 for every
+// delivery attempt of the actor or the worker (a nil channel counts as attempted), and returns the peak.
+func pLogPeak(items []pItem) int {
+	un, peak := 0, 0
+	for _, it := range items {
+		switch {
+		case it.class == "isent":
+			un++
+			if un > peak {
+				peak = un
+			}
+		case strings.HasPrefix(it.term, "EL (LAck "):
+			un--
+		}
+	}
+	return peak
+}
+
+// finish ends the case log, collects buffered acks, queries, then tears the engine down.
+func (r *pRun) finish(maxWait time.Duration, exact bool) *pResult {
+	hung := r.waitQuiet(maxWait, 25*time.Millisecond)
+	// buffered done channels: read what arrived
+	r.pollBuffered()
 	// cut the log: engine events stop being recorded (any that still arrive mean the run was not
 	// quiescent and the case is dropped); receivers get a short grace period to report values that
 	// were sent before the cut
@@ -536,6 +660,7 @@ func (r *pRun) finish(maxWait time.Duration, exact bool) *pResult {
 	items = pNormalizeChan(items, "isent", "itake", "actor", r.spec.ICap, true)
 	items = pNormalizeChan(items, "fsent", "ftake", "worker", r.spec.FCap, false)
 	res.items = items
+	res.logPeak = pLogPeak(items)
 	res.problems = append(res.problems, problems...)
 
 	// teardown: release everything and make sure the engine's goroutines are gone before
